@@ -91,8 +91,10 @@ func c01CLIOne(a vh.Args, r *vh.Result, bin string, cc *c01CLICase) error {
 			continue // a seed that is the target itself cannot be given on the command line (names must differ)
 		}
 		name := filepath.Join(dir, fmt.Sprintf("seed%d", i))
-		if err := os.WriteFile(name, vh.UnHex(s.FileHex), 0644); err != nil {
-			return err
+		if s.Kind != "gone" {
+			if err := os.WriteFile(name, vh.UnHex(s.FileHex), 0644); err != nil {
+				return err
+			}
 		}
 		sidx := indexOfPieces(vh.UnHex(s.IndexHex), s.Pieces, c.Min, c.Avg, c.Max)
 		if err := writeIdx(name+".caibx", sidx); err != nil {
